@@ -215,11 +215,17 @@ def oracle_c19(case, raw):
             # subject
             if adm['subj_src'] != subject.get('src') or (adm['subj_time'], adm['subj_seq']) != (subject.get('time', 0), subject.get('seq', 0)):
                 sig = 'C19/subject-mismatch'
-                if adm['subj_src'] == subject.get('src') and subject.get('time', 0) == 0 and fwds:
+                # _apply_primary stamps a creation time of 0 as soon as forwarding is ATTEMPTED (send_bundle runs it
+                # before the TX chain), so the report of a failed forward names the rewritten timestamp as well
+                dest0 = spec.get('dest') or 'dtn:none'
+                tried_fwd = dest0 != node and dest0 != B.SAND_GROUP_EID and B.first_route(case['rx_routes'], dest0)[1] == 'forward'
+                if adm['subj_src'] == subject.get('src') and subject.get('time', 0) == 0 and (fwds or tried_fwd):
                     sig = 'C19/subject-timestamp-rewritten/creation-time-0-forwarded'
                 bad.append((sig, where + ' report names (%s, %s, %s)' % (adm['subj_src'], adm['subj_time'], adm['subj_seq'])))
             # statuses: requested and occurred
-            occurred = dict(received=True, delivered=bool(delivers), forwarded=bool(fwds), deleted=not delivers and not fwds)
+            # (a bundle delivered to an application that then refuses it - model input refuse - was delivered AND deleted)
+            occurred = dict(received=True, delivered=bool(delivers), forwarded=bool(fwds),
+                            deleted=(not delivers and not fwds) or bool(subject.get('refuse') and not fwds))
             want_time = bool(flags & B.FLAG_REQ_STATUS_TIME)
             asserted = [name for name in STATUS_FLAG if adm['status'][name]['asserted']]
             if not asserted:
